@@ -92,6 +92,7 @@ def run(check, prog):
     fortran_single_precision_quotients(check, prog)
     series_exit(check, prog)
     work_arrays_defined(check, prog)
+    status_examined(check, prog)
     cluster_order_cap(check, prog)
     # "at every detector point and polarization": the lens theories place the
     # Mie series relative to the polarisation direction (rule shared with C05)
@@ -1430,6 +1431,102 @@ def work_arrays_defined(check, prog):
                              '%s:%d' % (relpath, u.line))
     check.floor('H11 program units scanned', nunits, 30)
     check.floor('H11 local work arrays analysed', narr, 4)
+
+
+def status_examined(check, prog):
+    """H12: a compiled routine that reports failure through a status argument is
+    not trusted blindly.  SBESJY (spherical Bessel functions by a continued
+    fraction) returns IFAIL = -1 *with its output arrays untouched* when the
+    argument is out of range or the fraction has not converged within its
+    iteration limit; its callers pass automatic (stack) arrays, so an ignored
+    failure is read back as whatever the previous point or the previous call left
+    there -- fields of order 1e277, or plausible numbers that depend on the order
+    of the detector points.  Rule: in every caller, between the CALL and the first
+    statement that reads one of the routine's output arguments, the status
+    variable is tested."""
+    import os
+    import re
+    from hpstatic.fortran import scan_file
+    from .c10 import meson_inputs, MIE_DIR
+    files = []
+    for rel in meson_inputs(prog.root, MIE_DIR):
+        path = os.path.normpath(os.path.join(prog.root, rel))
+        if os.path.exists(path) and path not in files:
+            files.append(path)
+    units = []
+    for path in files:
+        units += [(path, u) for u in scan_file(path, os.path.relpath(path, prog.root))]
+    # routines with a status dummy, and which of their dummies are outputs
+    reporters = {}
+    for path, u in units:
+        hm = re.search(r'\((.*)\)', u.header.replace(' ', ''))
+        dummies = [d.upper() for d in hm.group(1).split(',')] if hm else []
+        if 'IFAIL' not in dummies:
+            continue
+        outs = set()
+        with open(path, errors='replace') as f:
+            lines = f.read().splitlines()
+        for line in lines[u.line - 1:u.line + 80]:
+            m = re.match(r'(?i)^[c!*]f2py\s+intent\(out\)\s+(\w+)', line.strip())
+            if m:
+                outs.add(m.group(1).upper())
+        reporters[u.name] = (dummies, outs - {'IFAIL'})
+    check.need('routines reporting failure through IFAIL', len(reporters), 1,
+               'H12-status-examined', 'mie_f status arguments',
+               'the Bessel routine reports failure through its IFAIL argument',
+               os.path.relpath(files[0], prog.root) if files else '')
+    nsites = 0
+    for path, u in units:
+        stmts = [(line, ''.join(t.upper().split())) for line, t in u.stmts]
+        for i, (line, t) in enumerate(stmts):
+            m = re.match(r'^CALL(\w+)\((.*)\)$', t)
+            if not m or m.group(1) not in reporters or m.group(1) == u.name:
+                continue
+            dummies, outs = reporters[m.group(1)]
+            actual = [a for a in re.split(r',(?![^()]*\))', m.group(2))]
+            if len(actual) != len(dummies):
+                continue
+            bind = dict(zip(dummies, actual))
+            status = bind['IFAIL']
+            out_names = {re.sub(r'\(.*$', '', bind[d]) for d in outs}
+            nsites += 1
+            tested = None
+            used = None
+            for line2, t2 in stmts[i + 1:]:
+                names = set(re.findall(r'[A-Z_][A-Z0-9_]*', t2))
+                if t2.startswith('IF(') and status in names:
+                    cond_end = 0
+                    depth = 0
+                    for k, ch in enumerate(t2):
+                        if ch == '(':
+                            depth += 1
+                        elif ch == ')':
+                            depth -= 1
+                            if depth == 0:
+                                cond_end = k
+                                break
+                    if status in set(re.findall(r'[A-Z_][A-Z0-9_]*', t2[:cond_end + 1])):
+                        tested = line2
+                        break
+                if names & out_names:
+                    used = line2
+                    break
+            construct = '%s::%s CALL %s' % (os.path.basename(u.path), u.name, m.group(1))
+            where = '%s:%d' % (u.path, line)
+            if tested is not None:
+                check.ok('H12-status-examined', construct,
+                         '%s is tested (line %d) before the outputs are read' % (
+                             status, tested), where)
+            else:
+                check.bad('H12-status-examined', construct,
+                          '%s is never tested: %s are read%s as the stack left them when '
+                          '%s gives up (k r above its iteration limit -- a detector a '
+                          'few millimetres from the particle): the field there is '
+                          'garbage that depends on the previous point and the previous '
+                          'call' % (status, ', '.join(sorted(out_names)),
+                                    ' (line %d)' % used if used else '', m.group(1)),
+                          where)
+    check.floor('H12 call sites of status-reporting routines', nsites, 4)
 
 
 def option_slots(check, prog):
